@@ -242,6 +242,9 @@ func (in *Interp) zero(t types.Type) Value {
 				if o.Name() == "Float" {
 					return FloatVal{}
 				}
+				if o.Name() == "Rat" {
+					return RatVal{}
+				}
 			case "reflect":
 				if o.Name() == "Value" {
 					return RValue{}
